@@ -63,6 +63,7 @@ type Ctx struct {
 
 	mu       sync.Mutex
 	distinct map[string]struct{}
+	perKey   map[string]int
 }
 
 func (c *Ctx) Thorough() bool { return c.Tier == "thorough" }
@@ -128,7 +129,13 @@ func (c *Ctx) Compare(input, impl, model string) bool {
 func (c *Ctx) Fail(key, input, detail string) {
 	c.mu.Lock()
 	c.Res.FailureCount++
-	if len(c.Res.Failures) < 10 {
+	// keep the first 3 failures of every key (at most 60 in all), so that a frequent failure
+	// class (e.g. a known finding) cannot crowd a different one out of the report
+	if c.perKey == nil {
+		c.perKey = map[string]int{}
+	}
+	if c.perKey[key] < 3 && len(c.Res.Failures) < 60 {
+		c.perKey[key]++
 		c.Res.Failures = append(c.Res.Failures, Failure{key, clip(input), clip(detail)})
 	}
 	c.mu.Unlock()
